@@ -66,8 +66,9 @@ class ReferenceMarkerRunner(argschema.ArgSchemaParser):
                 stats_path=precomputed_path)
 
             if self.args['drop_level'] is not None:
-                taxonomy_tree = taxonomy_tree.drop_level(
-                    self.args['drop_level'])
+                if self.args['drop_level'] in taxonomy_tree.hierarchy:
+                    taxonomy_tree = taxonomy_tree.drop_level(
+                        self.args['drop_level'])
 
             find_markers_for_all_taxonomy_pairs(
                 precomputed_stats_path=precomputed_path,
